@@ -33,6 +33,10 @@ def make(TaskPool):
             """A default value that contains percent signs."""
             return f"fmt {pattern!r} {width!r}"
 
+        def report(self, verbose: bool = True, quiet: bool = False) -> str:
+            """A flag whose default is True."""
+            return f"report {verbose!r} {quiet!r}"
+
         def half(self, n: int = 1) -> str:
             """Runs at 50% of the speed - a percent sign in a docstring (defect D13), also %s and %(x)d."""
             return f"half {n!r}"
